@@ -12,30 +12,37 @@ Import ListNotations.
 
 (* ---------------------------------------------------------------- documented => accepted *)
 
-(* <host>:<port> for every DNS-1123 name or dotted-quad IPv4 address and EVERY port 1..65535 is
-   accepted by both endpoint validators.
-   _partial: the bracketed IPv6 form "[v6]:port" (Spec.doc_endpoint_v6) is not proved for all
-   addresses; it is checked by evaluation on the listed forms (Proofs.ex_ipv6) and, on every run, by the
-   oracle Spec.ipv6_ok against the real net.ParseIP on generated addresses. *)
-Theorem C20_documented_endpoint_accepted_partial :
+(* <host>:<port> for every DNS-1123 name or dotted-quad IPv4 address, "[v6]:<port>" for every RFC 4291
+   IPv6 text form, and EVERY port 1..65535, is accepted by both endpoint validators *)
+Theorem C20_documented_endpoint_accepted :
   forall h n, (subdomain_ok h = true \/ ipv4_ok h = true) -> (1 <= n <= 65535)%N ->
   validate_endpoint repaired (h ++ c_colon :: dec n) = true /\
   validate_endpoint_optional_port repaired (h ++ c_colon :: dec n) = true.
 Proof. exact documented_endpoint_accepted. Qed.
 
-(* the same for the oracle's decidable reading of "documented endpoint" (any string) *)
-Theorem C20_documented_endpoint_string_accepted_partial :
-  forall s, doc_endpoint_plain s = true -> validate_endpoint repaired s = true.
-Proof. exact doc_endpoint_plain_accepted. Qed.
+Theorem C20_documented_ipv6_endpoint_accepted :
+  forall h n, ipv6_ok h = true -> (1 <= n <= 65535)%N ->
+  validate_endpoint repaired (c_lbr :: h ++ c_rbr :: c_colon :: dec n) = true /\
+  validate_endpoint_optional_port repaired (c_lbr :: h ++ c_rbr :: c_colon :: dec n) = true.
+Proof. exact documented_v6_endpoint_accepted. Qed.
 
-(* the port is optional for --usage-report-endpoint / --usage-report-resolver *)
-Theorem C20_bare_host_accepted :
+(* the same for the oracle's decidable reading of "documented endpoint" (any string) *)
+Theorem C20_documented_endpoint_string_accepted :
+  forall s, doc_endpoint s = true ->
+  validate_endpoint repaired s = true /\ validate_endpoint_optional_port repaired s = true.
+Proof. exact doc_endpoint_accepted. Qed.
+
+(* the port is optional for --usage-report-endpoint / --usage-report-resolver.
+   _partial: a bare (unbracketed, portless) IPv6 address is documented as well (Spec.doc_endpoint_opt) and is
+   accepted by the code through the "too many colons" path; that case is checked by the oracle on every
+   run but not proved for all addresses. *)
+Theorem C20_bare_host_accepted_partial :
   forall v s, (subdomain_ok s = true \/ ipv4_ok s = true) -> validate_endpoint_optional_port v s = true.
 Proof. exact bare_host_accepted_opt. Qed.
 
-(* every dotted quad is an accepted IP address *)
-Theorem C20_ipv4_accepted : forall s, ipv4_ok s = true -> validate_ip s = true.
-Proof. exact ipv4_ok_validate. Qed.
+(* every dotted quad and every RFC 4291 IPv6 text form is an accepted IP address *)
+Theorem C20_documented_ip_accepted : forall s, ip_ok s = true -> validate_ip s = true.
+Proof. exact ip_ok_validate. Qed.
 
 (* resource names, namespaces and NAMESPACE/NAME: accepted EXACTLY when legal (DNS-1123 subdomain /
    label), so every legal name is accepted and every accepted name is a legal object name *)
